@@ -19,7 +19,7 @@ BIND_U = dict(Mode="leaf", Depth=1, Width=2, NodeKinds={"tuple", "dict"}, AtomSe
               LeafSet={"uAshV", "arrA", "any"}, MemoSet={"empty", "a2"})
 BIND_U2 = dict(Mode="leaf", Depth=2, Width=2, NodeKinds={"tuple"}, AtomSet={"int", "str"}, SmallDepth=1,
                LeafSet={"uSpt", "uptS", "uis"}, MemoSet={"empty"})
-PIECES = {"id": ["T", "S", "foo_1"], "dots": ["..."], "bad": ["1bad", "a-b", "T,", "..", "....", "T..."]}
+PIECES = {"id": ["T", "S", "foo_1"], "dots": ["..."], "bad": ["1bad", "a-b", "T,", "..", "....", "T...", "...T", "......", "T.", "...S...", "T...S"]}
 
 
 def struct_strings(chk):
@@ -31,8 +31,12 @@ def struct_strings(chk):
     rid = 0
     for n in range(0, 4):
         for kinds in itertools.product(["id", "dots", "bad"], repeat=n):
-            for rep in range(2):
-                pieces = [rng.choice(PIECES[k]) for k in kinds]
+            # every spelling of every piece when there is at most one non-identifier piece, a sample otherwise
+            if sum(k == "bad" for k in kinds) <= 1:
+                combos = [list(c) for c in itertools.product(*[PIECES[k] if k == "bad" else [rng.choice(PIECES[k])] for k in kinds])]
+            else:
+                combos = [[rng.choice(PIECES[k]) for k in kinds] for _ in range(4)]
+            for pieces in combos:
                 sep = rng.choice([" ", "  ", "\t", " \n "])
                 s = rng.choice(["", " "]) + sep.join(pieces) + rng.choice(["", " ", "\t"])
                 try:
